@@ -107,6 +107,7 @@ def run_tlc(module, cfg, name, workers=8, timeout=1800, env_extra=None, java_opt
     states = int(m.group(2).replace(",", "")) if m else 0
     trans = int(m.group(1).replace(",", "")) if m else 0
     violated = re.findall(r"Invariant (\w+) is violated", out)
+    violated += re.findall(r"The invariant of (\w+) is equal to FALSE", out)
     violated += ["Temporal:" + x for x in re.findall(r"Temporal property (\w+) was violated", out)]
     violated += re.findall(r"Temporal properties were violated", out)
     violated += re.findall(r"Action property (\w+) is violated", out)
